@@ -226,7 +226,7 @@ def check_case(acc, E, case, slices=False):
 def universe(tier, seed, shard, nshards):
     A = univ.alphabet(univ.BASE3, seed)
     thorough = tier == 'thorough'
-    sers = univ.series(A, 1, 3)
+    sers = univ.series(A, 1, 4 if thorough else 3)
     idx = 0
     for s1 in sers:
         for s2 in sers:
@@ -252,7 +252,7 @@ def universe(tier, seed, shard, nshards):
                                     yield 'U1-values', False, dict(base, max_dist=0.9, keep_int_repr=True, psi_neg=True)
                                     yield 'U1-values', False, dict(base, max_dist=2.2, keep_int_repr=False, psi_neg=False)
     # shapes, all windows; with every slice for the small ones
-    L = 6 if thorough else 5
+    L = 7 if thorough else 5
     SL = 4 if thorough else 3
     cat = univ.CAT_PAIRS_THOROUGH if thorough else univ.CAT_PAIRS_QUICK
     for r in range(1, L + 1):
@@ -340,9 +340,9 @@ def run(ctx):
         rule='every case x producers {Python warping_paths, C full matrix, C compact+expand, C compact + every slice (small shapes)}; every cell compared with the reference '
              'table of per-cell optima under the freedoms C04 names; returned distance compared with the distance-only routine; non-trivial = band excludes cells or -1 marks present',
         bounds={'alphabet': list(univ.alphabet(univ.BASE3, ctx.seed)),
-                'U1': 'all pairs len 1..3 x window{None,1,2} x penalty x max_step x inner x 9 psi forms x max_dist{None,1.6%s} x (keep_int_repr,psi_neg) in {(F,T),(T,F)}' % (',0.9,2.2' if ctx.thorough else ''),
+                'U1': 'all pairs len 1..3 (1..4 in thorough) x window{None,1,2} x penalty x max_step x inner x 9 psi forms x max_dist{None,1.6%s} x (keep_int_repr,psi_neg) in {(F,T),(T,F)}' % (',0.9,2.2' if ctx.thorough else ''),
                 'U2': 'shapes up to %dx%d: every slice [rb:re, cb:ce] of the full matrix, every window, 7 psi forms' % ((5, 4) if ctx.thorough else (4, 3)),
-                'U3': 'all shapes up to %d x every window x catalogue values' % (6 if ctx.thorough else 5),
+                'U3': 'all shapes up to %d x every window x catalogue values' % (7 if ctx.thorough else 5),
                 'U4': 'ndim 2, len 1..2', 'U5': 'long thin bands: every shape up to %s with max >= 7, windows %s, %d psi forms' % (('18x18', '1..5', 13) if ctx.thorough else ('12x12', '1..3', 6))},
         assumptions=['row 0 / column 0 of the matrix (virtual start cells) are not described by C04 and not judged; a wrong start cell shows in the in-band cells it feeds',
                      'cells whose optimum is within 1e-9 relative of max_dist are not judged'],
